@@ -1,0 +1,16 @@
+//go:build verif
+
+package defs
+
+// Machine-checked contracts for /verif (govc). Comment-only: compiled only with -tags verif, adds no code.
+
+// C03: the authentication request built for a path access request asks for exactly that path name and for the
+// publish action iff the access is a publish, and carries the client's credentials, address, protocol and query.
+
+//@ func (r *PathAccessRequest) ToAuthRequest
+//@   property C03
+//@   requires r != nil
+//@   ensures [fresh-request] result != nil && fresh(result)
+//@   ensures [exactly-that-path] result.Path == r.Name
+//@   ensures [matching-action] result.Action == ite(r.Publish, conf.AuthActionPublish, conf.AuthActionRead)
+//@   ensures [client-identity-carried] result.Credentials == r.Credentials && result.IP == r.IP && result.Protocol == r.Proto && result.Query == r.Query && result.ID == r.ID && result.CustomVerifyFunc == r.CustomVerifyFunc
